@@ -115,6 +115,18 @@ def load_bounded_findings(prop):
     return [f for f in json.load(open(p)).get("findings", []) if f.get("status") == "open" and f.get("kind") == "bounded" and f["property"] == prop]
 
 
+class _CaseTimeout(BaseException):
+    pass
+
+
+def _on_alarm(signum, frame):
+    raise _CaseTimeout()
+
+
+import signal  # noqa: E402
+signal.signal(signal.SIGALRM, _on_alarm)
+
+
 def main(prop, module):
     ap = argparse.ArgumentParser()
     ap.add_argument("--tier", default="quick")
@@ -147,12 +159,16 @@ def main(prop, module):
             nontrivial.add(key)
         if len(samples) < 5 and nt:
             samples.append({"case": key, "payload": payload})
+        signal.alarm(getattr(module, "CASE_TIMEOUT_S", 5))
         try:
             msg = module.check(payload)
+        except _CaseTimeout:
+            msg = f"did not terminate within {getattr(module, 'CASE_TIMEOUT_S', 5)} s"
         except Exception:
             msg = None
             if len(errors) < 3:
                 errors.append({"case": key, "error": traceback.format_exc()[-1200:]})
+        finally_ = signal.alarm(0)
         if msg:
             fid = None
             for f in findings:
